@@ -20,6 +20,7 @@ import json
 import multiprocessing
 import os
 import random
+import time
 from concurrent.futures import ThreadPoolExecutor
 
 from .. import common, tlc
@@ -244,18 +245,30 @@ def run(rep):
         "backslash would escape the closing quote whenever another quote follows)",
     ]
     findings = common.open_findings(PID)
+    phase, t0 = {}, time.time()
+
+    def lap(name):
+        nonlocal t0
+        phase[name] = round(time.time() - t0, 1)
+        t0 = time.time()
+
     n, shards = (3, max(2, min(12, tlc.NCPU))) if quick else (4, 16)
     cases, st = _universe(n, shards)
     rep.add_mc(f"MC_RrelSyntax[N={n}]", _Agg(st), THEOREMS)
     rep.bounds["universe"] = dict(weight=n, trees=len(cases), flags=5)
+    lap("tlc_universe")
     obs = _observe_all(cases, procs)
+    lap("textx_universe")
     reads = _spec_reads(rep, [o["printed"] for o in obs])
+    lap("tlc_reads_printed")
     _judge_all(rep, cases, obs, reads, findings, "enumerated tree")
+    lap("judge_universe")
     rep.exhaustive = True
     # random deeper trees
     trees = _random_trees(rng, 1500 if quick else 20000)
     res, st = _cached(["random", trees], lambda: list(tlc.oracle("OracleRrelSyntax", trees)))
     rep.add_oracle("OracleRrelSyntax[random trees]", st)
+    lap("tlc_random_trees")
     rcases = []
     for t in trees:
         r = res[t["id"]]
@@ -265,9 +278,13 @@ def run(rep):
             continue
         rcases.append(r)
     robs = _observe_all(rcases, procs)
+    lap("textx_random")
     rreads = _spec_reads(rep, [o["printed"] for o in robs])
+    lap("tlc_reads_random")
     _judge_all(rep, rcases, robs, rreads, findings, "random tree")
+    lap("judge_random")
     rep.bounds["random_trees"] = len(rcases)
+    rep.extra["phase_wall_s"] = phase          # where the time went (not used in any verdict)
 
 
 def replay(path):
